@@ -372,7 +372,7 @@ def dump_graph(dag, spec):
                       'is_switch': bool(a.get('is_switch')), 'case': a.get('case_branch')})
     edges.sort(key=lambda e: (e['u'], e['v']))
     return {'nodes': nodes, 'edges': edges, 'input': idx[dag.input_node], 'output': idx[dag.output_node],
-            'n': k}, idx
+            'order': [idx[nid] for nid in dag.graph.nodes], 'n': k}, idx
 
 
 # ------------------------------------------------------------------ generator
